@@ -82,7 +82,7 @@ def witness_cases():
     many = [sc.with_id("e%d" % i, {"props": {"p1": i % 3}, "refs": {}}) for i in list(range(1, 24)) + [5, 5, 12]]
     http = {"datasets": ["a"], "ops": [
         # the same listing through the real HTTP handlers (POST cut into batches of 10, GET entities paged with tokens)
-        {"op": "hbatch", "ds": "a", "ents": many}, {"op": "hentities", "ds": "a", "limits": [4]}, {"op": "hentities", "ds": "a", "limits": [0]},
+        {"op": "hbatch", "ds": "a", "ents": many}, {"op": "hentities", "ds": "a", "limits": [4], "ld": True}, {"op": "hentities", "ds": "a", "limits": [0], "ld": True},
         {"op": "hbatch", "ds": "a", "ents": [sc.with_id("e7", {"deleted": True, "props": {"p1": 1}, "refs": {}})] + many[10:21]},
         {"op": "hentities", "ds": "a", "limits": [10]}, {"op": "entities", "ds": "a", "limits": [3]}] + fin_reads(1, ["e7", "e12"])}
     # a writer that waited for the lock re-posts what was there BEFORE the other writer's commit: it is a new version
@@ -135,7 +135,7 @@ def gen_case(rng, nw):
         if w["op"] == "batch" and rng.chance(1, 5):
             w = {"op": "hbatch", "ds": w["ds"], "ents": sc.no_null(w["ents"] + sc.gen_batch(rng, pool, memo, w["ds"], True) * rng.choice([1, 4]))}
             ops.append(w)
-            ops.append({"op": "hentities", "ds": w["ds"], "limits": [rng.choice([0, 1, 2, 3])]})
+            ops.append({"op": "hentities", "ds": w["ds"], "limits": [rng.choice([0, 1, 2, 3])], "ld": rng.chance(1, 2)})
             continue
         ops.append(w)
         if rng.chance(1, 6):
